@@ -182,6 +182,8 @@ type checker struct {
 	n       int64
 	sampled map[string]bool
 	vio     map[string]bool
+	// family B: operation id -> route template of the spec
+	routeOfOp map[string]string
 }
 
 // check runs one member against the chain and applies the oracle.
